@@ -858,3 +858,72 @@ def oracle_c17(line, case, stats, allc=None, lines=None):
         stats['_le_reported'] = True; errs.append('an error recorded on one thread was visible to or cleared by another thread')
     stats['unsupported_by_c_api'] = stats.get('unsupported_by_c_api', 0) + sum(1 for x in case.get('extra', []) if x.startswith('X capi-unsupported'))
     return errs[:3]
+
+# ------------------------------------------------------------------------------------------------
+# C03: (1) a strict run that succeeds equals the non-strict run; (2) strict success => the captured token stream is the
+# one of the independent WHATWG reference tokenizer (tools/whatwg_ref.py); (3) strict mode fails only where it may.
+import whatwg_ref
+def _c03_impl_tokens(case):
+    out = []
+    for e in obslog.all_events(case):
+        if isinstance(e, tuple): out.append(('T', e[1], e[2]))
+        else:
+            f = e.split(' ')
+            a, b = [int(x) for x in f[1].split('..')]
+            if f[0] == 'S':
+                m = re.search(r'\[(.*)\] (true|false)$', e)
+                attrs, seen = [], set()
+                for x in (m.group(1).split(',') if m.group(1) else []):
+                    k, _, v = x.partition('@')[0].partition('=')
+                    k = whatwg_ref.lower(bytes.fromhex(k))
+                    if k not in seen: seen.add(k); attrs.append((k, bytes.fromhex(v)))
+                out.append(('S', a, b, whatwg_ref.lower(bytes.fromhex(f[2])), tuple(attrs), m.group(2) == 'true'))
+            elif f[0] == 'E': out.append(('E', a, b, whatwg_ref.lower(bytes.fromhex(f[2]))))
+            elif f[0] == 'C': out.append(('C', a, b, bytes.fromhex(f[2]) if len(f) > 2 else b''))
+            elif f[0] == 'D':
+                o = lambda s: None if s == '-' else bytes.fromhex(s[1:])
+                out.append(('D', a, b, o(f[2]), o(f[3]), o(f[4]), f[5] == 'true'))
+    return out
+def oracle_c03(line, case, stats, allc=None, lines=None):
+    cid = case['id']
+    if not cid.endswith('.s'): return []
+    errs = []
+    twin = allc.get(cid[:-2] + '.n')
+    results = obslog.p_results(case)
+    ok = all(r == 'ok' for r in results)
+    stats['strict_runs'] = stats.get('strict_runs', 0) + 1
+    data = input_bytes(line)
+    if not ok:
+        if 'err:amb' in results:
+            stats['refused'] = stats.get('refused', 0) + 1
+            low = whatwg_ref.lower(data)
+            if not any(t in low for t in (b'<select', b'<frameset')):
+                errs.append('strict mode reported a parsing ambiguity although the document has neither a select nor a frameset start tag')
+        return errs
+    stats['strict_success'] = stats.get('strict_success', 0) + 1
+    if twin is not None and obslog.p_full(twin) != obslog.p_full(case):
+        errs.append('the successful strict run differs from the non-strict run of the same input')
+    if ' seed=100000 ' not in line and b'\x00' not in data and b'\r' not in data:
+        # sparse capture policy (the parser switches between tag scanner and lexer): whatever is captured must be an
+        # in-order sub-sequence of the reference token stream
+        got = _c03_impl_tokens(case)
+        ref, refstate = whatwg_ref.analyse(data)
+        stats['reference_subsequence_compared'] = stats.get('reference_subsequence_compared', 0) + 1
+        j = 0
+        for k, t in enumerate(got):
+            while j < len(ref) and ref[j] != t: j += 1
+            if j >= len(ref):
+                errs.append('captured token %d is not in the WHATWG reference stream (in order)%s: lol-html %r' % (k, ' [ip-name-reuse]' if refstate.ip_name_reuse else '', t)); break
+            j += 1
+    if ' seed=100000 ' in line and b'\x00' not in data and b'\r' not in data:
+        got = _c03_impl_tokens(case)
+        ref, refstate = whatwg_ref.analyse(data)
+        stats['reference_compared'] = stats.get('reference_compared', 0) + 1
+        stats['reference_tokens'] = stats.get('reference_tokens', 0) + len(ref)
+        if got != ref:
+            k = next((i for i, (x, y) in enumerate(zip(got, ref)) if x != y), min(len(got), len(ref)))
+            errs.append('token %d differs from the WHATWG reference%s: lol-html %r, reference %r' % (k, ' [ip-name-reuse]' if refstate.ip_name_reuse else '', got[k] if k < len(got) else None, ref[k] if k < len(ref) else None))
+    return errs[:3]
+
+def classify_c03(line, case, msg):
+    return 'IntegrationPointNameReuse' if '[ip-name-reuse]' in msg else None
